@@ -227,6 +227,8 @@ def _pcs_inv(c):
     st1 = lambda x: z3.Select(n.heap('Task', 'task_status'), x)
     return [('C04-statuses-only-move-from-unscheduled-to-scheduled', Q([('x', I)], lambda x: z3.Or(
         st1(x) == st0(x), z3.And(st0(x) == TS('UNSCHEDULED'), st1(x) == TS('SCHEDULED'))))),
+            ('schedule-only-shrinks', Q([('t', I)], lambda t: z3.Implies(z3.Select(sch.keys, t), z3.And(
+                z3.Select(sch0.keys, t), z3.Select(sch.vals, t) == z3.Select(sch0.vals, t))))),
             ('unvisited-proposals-are-still-in-the-schedule', Q([('t', I)], lambda t: z3.Implies(
         z3.Select(it.cnt, t) - z3.Select(vis.cnt, t) > 0, z3.And(z3.Select(sch.keys, t), z3.Select(sch.vals, t) > 0, t > 0,
                                                                   z3.Select(sch.vals, t) == z3.Select(sch0.vals, t))))),
@@ -264,7 +266,10 @@ REG.contract('Scheduler._process_current_schedule', world=SW,
              ensures=lambda c: [('C04-statuses-only-move-from-unscheduled-to-scheduled', Q([('x', I)], lambda x: z3.Or(
                  z3.Select(c.n.heap('Task', 'task_status'), x) == z3.Select(c.o.heap('Task', 'task_status'), x),
                  z3.And(z3.Select(c.o.heap('Task', 'task_status'), x) == TS('UNSCHEDULED'),
-                        z3.Select(c.n.heap('Task', 'task_status'), x) == TS('SCHEDULED')))))],
+                        z3.Select(c.n.heap('Task', 'task_status'), x) == TS('SCHEDULED'))))),
+                                ('C01-skipped-proposals-stay-in-the-schedule-unchanged', Q([('t', I)], lambda t: z3.Implies(
+                                    z3.Select(c.result[0].keys, t), z3.And(z3.Select(c.o.schedule.keys, t), z3.Select(
+                                        c.result[0].vals, t) == z3.Select(c.o.schedule.vals, t)))))],
              result='tuple:dict:Task->ref:Machine,dict:str->pair:Task,Machine',
              raises={'RuntimeError': dict(when=None, unchanged=False), 'KeyError': dict(when=None, unchanged=False)},
              modifies=['arg:schedule', 'arg:allocation_pairs', 'heap:Task.task_status', 'heap:Task.allocated_machine_id',
@@ -275,3 +280,153 @@ REG.loop('Scheduler._process_current_schedule', 0, inv=_pcs_inv, body=_pcs_body,
          modifies=['curr_allocs', 'schedule', 'allocation_pairs', 'heap:Task.task_status', 'heap:Task.allocated_machine_id',
                    'heap:Task.delay_flag', 'heap:Task.delay_offset', 'heap:Task.duration'],
          props=['C01', 'C04', 'C17', 'C09'])
+
+
+# ---- planner / buffer hand-off -----------------------------------------------------------------------------------------
+REG.contract('Planning.generate_plan', assumed=True,
+             params={'clock': 'num', 'cluster': 'obj:Cluster', 'buffer': 'any', 'observation': 'Observation', 'max_ingest': 'any'},
+             ensures=lambda c: [('returns-a-plan', c.result.t > 0)], result='WorkflowPlan',
+             note="ASSUMED: the planning model is user supplied; the in-tree BatchPlanning.generate_plan is verified under C14")
+REG.contract('Planner.run', world=world_of('planner'), params={'observation': 'Observation', 'buffer': 'any', 'max_ingest': 'any'},
+             ensures=lambda c: [('returns-a-plan', c.result.t > 0)], result='WorkflowPlan', props=['C04'])
+
+
+def _bnofp_ens(c):
+    o, n = c.o.self, c.n.self
+    st_o, st_n = hot(o).observations['stored'], hot(n).observations['stored']
+    sc_o, sc_n = hot(o).observations['scheduled'], hot(n).observations['scheduled']
+    r = c.result.t
+    return [('C04-one-observation-moves-from-stored-to-scheduled', z3.And(
+        st_o.count(r) > 0, st_n.cnt == z3.Store(st_o.cnt, r, z3.Select(st_o.cnt, r) - 1), st_n.n == st_o.n - 1,
+        sc_n.cnt == z3.Store(sc_o.cnt, r, z3.Select(sc_o.cnt, r) + 1), sc_n.n == sc_o.n + 1)),
+            ('C04-it-gets-a-plan', z3.Select(c.n.heap('Observation', 'plan'), r) > 0)]
+
+
+REG.contract('Buffer.next_observation_for_processing', world=world_of('buffer'),
+             requires=lambda c: [('something-stored', hot(c.o.self).observations['stored'].n > 0),
+                                 ('stored-observations-are-objects', Q([('o', I)], lambda o: z3.Implies(
+                                     hot(c.o.self).observations['stored'].count(o) > 0, o > 0)))],
+             ensures=_bnofp_ens, result='Observation',
+             modifies=['self.hot.0.observations.stored', 'self.hot.0.observations.scheduled', 'heap:Observation.plan'],
+             props=['C04'])
+
+
+# ---- _generate_current_schedule ------------------------------------------------------------------------------------------
+def _gcs_ens(c):
+    o, n = c.o, c.n
+    s0, s1 = o.self, n.self
+    ob = o.observation
+    finished = c.result[3]
+    k0, k1 = CV(s0.cluster), CV(s1.cluster)
+    nm = ob.name.t
+    q0, q1 = s0.observation_queue, s1.observation_queue
+    fin = c.eng.truth(finished.val)
+    hot0, hot1 = hot(s0.buffer), hot(s1.buffer)
+    return [('C04-finished-only-when-the-algorithm-says-so-and-nothing-is-left-to-allocate', z3.Implies(fin, z3.And(
+        c.result[1].nk == 0, z3.Select(n.heap('WorkflowPlan', 'status'), o.current_plan.t) == WS('FINISHED')))),
+            ('C04-C13-finished-observation-leaves-the-queue-once', z3.If(fin, z3.And(
+                q1.cnt == z3.Store(q0.cnt, ob.t, z3.Select(q0.cnt, ob.t) - 1), q1.n == q0.n - 1), same_list(q1, q0))),
+            ('C07-finished-observation-frees-its-data', z3.Implies(fin, hot1.current_capacity.t == hot0.current_capacity.t + size_of(o, ob.t))),
+            ('C09-C04-finished-observation-holds-no-idle-reservation', z3.Implies(fin, z3.Or(z3.Not(k1.key(nm)), k1.idn(nm) == 0))),
+            ('C01-busy-pools-untouched', z3.And(same_list(k1.ing, k0.ing), same_list(k1.occ, k0.occ))),
+            ('C13-events-only-grow', Q([('e', I)], lambda e: z3.Select(s1.events.cnt, e) >= z3.Select(s0.events.cnt, e))),
+            ('proposals-name-objects', Q([('t', I)], lambda t: z3.Implies(z3.Select(c.result[1].keys, t), z3.And(
+                t > 0, z3.Select(c.result[1].vals, t) > 0)))),
+            ('returns-the-plan', c.result[0].t == o.current_plan.t)]
+
+
+REG.contract('Scheduler._generate_current_schedule', world=SW,
+             params={'observation': 'Observation', 'current_plan': 'WorkflowPlan', 'schedule': 'dict:Task->ref:Machine', 'task_pool': 'set:Task'},
+             requires=lambda c: [('observation-queued', c.o.self.observation_queue.count(c.o.observation) > 0),
+                                 ('observation-in-buffer-0', obs_ok(c.o, c.o.observation.t))],
+             ensures=_gcs_ens,
+             result='tuple:WorkflowPlan,dict:Task->ref:Machine,set:Task,bool',
+             modifies=['self.algtime', 'self.schedule_status', 'self.events', 'self.observation_queue', 'self.cluster._resources.available',
+                       'self.cluster._resources.idle', 'self.cluster.num_provisioned_obs', 'heap:WorkflowPlan.status', 'arg:task_pool',
+                       'self.buffer.events', 'self.buffer.hot.0.current_capacity', 'self.buffer.hot.0.observations.finished',
+                       'self.buffer.hot.0.observations.scheduled'],
+             props=['C04', 'C09', 'C13', 'C07', 'C01'])
+
+
+# ---- allocate_tasks: the per-observation workflow process ---------------------------------------------------------------
+def _at_carried(c):
+    v = c.n
+    ob = v.observation
+    return [('observation-queued', v.self.observation_queue.count(ob) > 0),
+            ('observation-in-buffer-0', obs_ok(v, ob.t)),
+            ('plan-is-an-object', v['current_plan'].t > 0),
+            ('proposals-name-objects', Q([('t', I)], lambda t: z3.Implies(
+                z3.Select(v['schedule'].keys, t), z3.And(t > 0, z3.Select(v['schedule'].vals, t) > 0)))),
+            ('one-step-wait', v['_ydelay'].t == 1)]
+
+
+def _at_step(c):
+    o, n = c.o, c.n
+    out = []
+    if c.x['frm'] == -1 and c.x['to'] in (0, 1, 2):
+        ev0, ev1 = o.self.events, n.self.events
+        code = EVENT(o.now, z3.IntVal(STRINGS.intern('scheduler')), o.observation.name.t, z3.IntVal(STRINGS.intern('started')),
+                     z3.IntVal(STRINGS.intern('allocation')))
+        out.append(('C13-allocation-started-event-at-the-first-step', z3.Select(ev1.cnt, code) >= z3.Select(ev0.cnt, code) + 1))
+    return out
+
+
+REG.contract('Scheduler.allocate_tasks', world=SW, params={'observation': 'Observation'},
+             locals_types={'minst': 'num', 'current_plan': 'WorkflowPlan', 'schedule': 'dict:Task->ref:Machine',
+                           'allocation_pairs': 'dict:str->pair:Task,Machine', 'task_pool': 'set:Task', '_total_tasks': 'num',
+                           '_curr_tasks': 'num', '_tqdm': 'bool', 'pbar': 'any', 'finished': 'bool', 'tmp': 'num', '_nupdate': 'num'},
+             requires=lambda c: [('observation-queued', c.o.self.observation_queue.count(c.o.observation) > 0),
+                                 ('observation-in-buffer-0', obs_ok(c.o, c.o.observation.t)),
+                                 ('observation-has-a-plan', c.o.observation.plan.t > 0)],
+             yields={0: _at_carried, 1: _at_carried, 2: lambda c: [('one-step-wait', c.n['_ydelay'].t == 1)]},
+             step=_at_step,
+             raises={'RuntimeError': dict(when=None, unchanged=False), 'KeyError': dict(when=None, unchanged=False)},
+             modifies=['self.algtime', 'self.schedule_status', 'self.delay_offset', 'self.events', 'self.observation_queue',
+                       'self.cluster._resources.available', 'self.cluster._resources.idle', 'self.cluster.num_provisioned_obs',
+                       'heap:WorkflowPlan.status', 'heap:WorkflowPlan.ast', 'heap:WorkflowPlan.tasks', 'heap:Task.workflow_offset',
+                       'heap:Task.task_status', 'heap:Task.allocated_machine_id', 'heap:Task.delay_flag', 'heap:Task.delay_offset',
+                       'heap:Task.duration', 'self.buffer.events', 'self.buffer.hot.0.current_capacity',
+                       'self.buffer.hot.0.observations.finished', 'self.buffer.hot.0.observations.scheduled'],
+             props=['C04', 'C13', 'C09', 'C01'])
+REG.loop('Scheduler.allocate_tasks', 0, inv=lambda c: [], modifies_locals=['task'], modifies=['heap:Task.workflow_offset'], props=['C04'])
+
+
+# ---- Scheduler.run ---------------------------------------------------------------------------------------------------------
+def _srun_step(c):
+    o, n = c.o, c.n
+    sp = [g for g, p, nd in c.x['spawns'] if g.qual == 'Scheduler.allocate_tasks']
+    q0, q1 = o.self.observation_queue, n.self.observation_queue
+    if len(sp) == 0:
+        return [('C04-queue-unchanged-when-nothing-is-handed-over', same_list(q1, q0))]
+    if len(sp) > 1:
+        return [('C04-at-most-one-hand-over-per-step', z3.BoolVal(False))]
+    ob = sp[0].args['observation']
+    code = EVENT(o.now, z3.IntVal(STRINGS.intern('scheduler')), n.of(ob).name.t, z3.IntVal(STRINGS.intern('added')),
+                 z3.IntVal(STRINGS.intern('queue')))
+    return [('C04-handed-over-observation-was-not-queued-and-is-queued-once', z3.And(
+        q0.count(ob) == 0, q1.cnt == z3.Store(q0.cnt, ob.t, z3.IntVal(1)), q1.n == q0.n + 1)),
+            ('C13-queue-added-event-in-the-same-step', z3.Select(n.self.events.cnt, code) == 1)]
+
+
+REG.contract('Scheduler.run', world=SW, locals_types={'obs': 'any', 'ret': 'proc'},
+             requires=lambda c: [('stored-observations-are-objects', Q([('o', I)], lambda o: z3.Implies(
+                 hot(c.o.self.buffer).observations['stored'].count(o) > 0, o > 0)))],
+             yields={0: lambda c: [('one-step-wait', c.n['_ydelay'].t == 1),
+                                   ('stored-observations-are-objects', Q([('o', I)], lambda o: z3.Implies(
+                                       hot(c.n.self.buffer).observations['stored'].count(o) > 0, o > 0)))]},
+             step=_srun_step,
+             raises={'RuntimeError': dict(when=lambda c: c.o.self.status.t != enum_code('SchedulerStatus', 'RUNNING'))},
+             modifies=['self.events', 'self.observation_queue', 'self.buffer.hot.0.observations.stored',
+                       'self.buffer.hot.0.observations.scheduled', 'heap:Observation.plan'],
+             props=['C04', 'C13'])
+
+
+def _sched_to_df(c):
+    r = c.result
+    s = c.o.self
+    return [('C12-queue-length', r['scheduler_observation_queue'].t == z3.ToReal(s.observation_queue.n)),
+            ('C12-delay-offset', r['delay_offset'].t == s.delay_offset.t)]
+
+
+REG.contract('Scheduler.to_df', world=SW, ensures=_sched_to_df, props=['C12'])
+REG.loop('Scheduler.to_df', 0, inv=lambda c: [], modifies_locals=['key', 'value'], props=['C12'])
